@@ -1,6 +1,6 @@
 (* Non-vacuity: the hypotheses of the theorems are met by concrete,
    non-trivial instances, and the conclusions are visibly non-trivial. *)
-From V Require Import Common.Base C05.Syntax C05.Sem C05.Lower C05.Frame C05.LowerProofs C05.SimLogic C05.Steps C05.Compose C05.Visit C05.Witness.
+From V Require Import Common.Base C05.Syntax C05.Sem C05.Lower C05.Frame C05.LowerProofs C05.SimLogic C05.Steps C05.Compose C05.Visit C05.Chain C05.Witness.
 
 (* f() ?? g() : the left operand is captured in a temporary *)
 Definition ex_a := ECall (EId 3) [] OcNone.
@@ -101,4 +101,44 @@ Example ex_big_lowered :
   = EBin BOr (EIndex (EId 3) (EAssign (ETmp 1) ex_b) OcNone)
              (EAssign (EIndex (EId 3) (ETmp 1) OcNone)
                       (EIf (EEqNull true (EAssign (ETmp 0) ex_a)) (ETmp 0) (EPowCall (ENum 2) (ENum 3)))).
+Proof. reflexivity. Qed.
+
+(* chains of arbitrary length: f()?.p1.p2(g(1))[v3]  and  f().p1?.(g(1)).p2 *)
+Definition ex_chain1 :=
+  EIndex (ECall (EDot (EDot ex_a 1 OcStart) 2 OcCont) [ex_b] OcCont) (EId 3) OcCont.
+Example ex_chain1_frag : frag ex_chain1.
+Proof. exact I. Qed.
+Example ex_chain1_flatten :
+  flatten ex_chain1 = Some (ex_a, [LDot 1; LDot 2; LCall [ex_b]; LIndex (EId 3)], false).
+Proof. reflexivity. Qed.
+Example ex_chain1_hyps :
+  no_delete [LDot 1; LDot 2; LCall [ex_b]; LIndex (EId 3)] /\ ex_a <> ENull /\ ex_a <> EUndef /\
+  ~ In 0 (tmps ex_a) /\ links_fresh (L1 0) [LDot 1; LDot 2; LCall [ex_b]; LIndex (EId 3)].
+Proof.
+  repeat split; try discriminate.
+  - repeat constructor; discriminate.
+  - cbn. tauto.
+  - intros l Hl k Hk. cbn in Hl. intuition subst; cbn; tauto.
+Qed.
+Example ex_chain1_lowered :
+  fst (fst (lowerOptionalChain all_features ex_chain1 (mkIn false false) out0 0))
+  = EIf (EEqNull false (EAssign (ETmp 0) ex_a)) EUndef
+        (EIndex (ECall (EDot (EDot (ETmp 0) 1 OcNone) 2 OcNone) [ex_b] OcNone) (EId 3) OcNone).
+Proof. reflexivity. Qed.
+
+Definition ex_chain2 := EDot (ECall (EDot ex_a 1 OcNone) [ex_b] OcStart) 2 OcCont.
+Example ex_chain2_flatten :
+  frag ex_chain2 /\ flatten ex_chain2 = Some (EDot ex_a 1 OcNone, [LCall [ex_b]; LDot 2], true).
+Proof. split; [exact I | reflexivity]. Qed.
+Example ex_chain2_lowered :
+  fst (fst (lowerOptionalChain all_features ex_chain2 (mkIn false false) out0 0))
+  = EIf (EEqNull false (EAssign (ETmp 1) (EDot (EAssign (ETmp 0) ex_a) 1 OcNone))) EUndef
+        (EDot (ECallThis (ETmp 1) (ETmp 0) [ex_b]) 2 OcNone).
+Proof. reflexivity. Qed.
+Example ex_chain2_fresh : links_fresh (L2 0) [LCall [ex_b]; LDot 2] /\ (forall k, L2 0 k -> ~ In k (tmps ex_a)).
+Proof. split; [intros l Hl k Hk; cbn in Hl; intuition subst; cbn; tauto | intros k _; cbn; tauto]. Qed.
+
+(* delete f()?.p1.p2 *)
+Example ex_delete_flatten :
+  flatten (EDot (EDot ex_a 1 OcStart) 2 OcCont) = Some (ex_a, [LDot 1] ++ [LDot 2], false).
 Proof. reflexivity. Qed.
